@@ -390,7 +390,11 @@ def run_noautodiff(spec, tier, mg):
                 env = {"mg": mg, "np": np, "x": x, "y": y, "z": z, "M": np.array([True, False])}
                 locks0 = dict(lm._array_counter)
                 if mode == "untracked":
-                    with mg.no_autodiff:
+                    import contextlib
+
+                    with contextlib.ExitStack() as stack:
+                        for mname in spec.get("scope", ["no_autodiff"]):
+                            stack.enter_context(getattr(mg, mname))
                         exec(body_src, env)
                         r = env["r"]
                         r_back = None
@@ -458,11 +462,11 @@ def run_noautodiff(spec, tier, mg):
                     if r2.verdict == "sat":
                         bad.append("input %s ends with different values than in the tracked run" % n)
             if bad:
-                rp = _noauto_replay(body_src, bad[0])
+                rp = _noauto_replay(body_src, bad[0], spec.get("scope", ["no_autodiff"]))
                 if rp:
                     res["status"] = common.VIOLATION
                     res["violations"].append({"signature": "no_autodiff:%s" % bad[0][:50], "replay": rp,
-                                              "summary": "inside no_autodiff `%s`: %s" % (body_src.replace("\n", "; "), "; ".join(bad))})
+                                              "summary": "inside %s `%s`: %s" % (" > ".join(spec.get("scope", ["no_autodiff"])), body_src.replace("\n", "; "), "; ".join(bad))})
                 else:
                     res["status"] = common.INCONCLUSIVE
                     res["notes"].append("did not reproduce: %s :: %s" % (body_src, bad))
@@ -470,7 +474,7 @@ def run_noautodiff(spec, tier, mg):
     return res
 
 
-def _noauto_replay(body_src, what):
+def _noauto_replay(body_src, what, scope=("no_autodiff",)):
     src = '''import sys
 import numpy as np
 import mygrad as mg
@@ -486,7 +490,9 @@ def run(tracked):
         exec(BODY, env)
     else:
         locks0 = dict(lm._array_counter)
-        with mg.no_autodiff:
+        import contextlib
+        with contextlib.ExitStack() as stack:
+            for m in SCOPE: stack.enter_context(getattr(mg, m))
             exec(BODY, env)
             r = env["r"]
             r.backward()
@@ -499,6 +505,7 @@ def run(tracked):
             if id(t.data) != i and ".shape" not in BODY: bad.append("identity")
     return env["r"].data.copy(), [t.data.copy() for t in (x, y, z)], bad
 BODY = %r
+SCOPE = %r
 r1, d1, _ = run(True)
 r2, d2, bad = run(False)
 if r1.shape != r2.shape or not np.allclose(r1, r2): bad.append("values")
@@ -506,8 +513,8 @@ for a, b in zip(d1, d2):
     if a.shape != b.shape or not np.allclose(a, b): bad.append("input values")
 print(bad)
 print('REPRODUCED' if bad else 'NOT-REPRODUCED'); sys.exit(1 if bad else 0)
-''' % body_src
-    path = common.write_replay(PROP, gradcase._safe("noauto_" + body_src[:40]), src)
+''' % (body_src, list(scope))
+    path = common.write_replay(PROP, gradcase._safe("noauto_" + "_".join(scope) + body_src[:40]), src)
     ok, out = common.run_replay(path)
     return path if ok else None
 
@@ -649,6 +656,10 @@ def cases(tier):
     cs.append({"kind": "nest", "name": "nesting/bounded"})
     for i in range(0, len(PROGS), 3):
         cs.append({"kind": "noauto", "name": "noauto/%d" % i, "progs": PROGS[i:i + 3]})
+    # the same bodies with a memory-guard manager nested inside / around the no_autodiff scope
+    for scope in (["no_autodiff", "mem_guard_on"], ["mem_guard_on", "no_autodiff"], ["no_autodiff", "mem_guard_off"], ["mem_guard_off", "no_autodiff", "mem_guard_on"]):
+        for i in range(0, len(PROGS), 6):
+            cs.append({"kind": "noauto", "name": "noauto/%s/%d" % (">".join(scope), i), "progs": PROGS[i:i + 6], "scope": scope})
     for i in range(0, len(BACK_TARGETS), 2):
         cs.append({"kind": "noauto-back", "name": "noauto-backward/%d" % i, "targets": BACK_TARGETS[i:i + 2]})
     return cs
